@@ -56,7 +56,13 @@ def run(chk):
     run_scenario(chk, 'C06', 'c06', {'mode': 'shape', 'deep': 1 if thorough else 0}, 'constructors + Display + parser round trip on all root operators x child templates', native_roundtrip, 'roundtrip')
     for L in (1, 2) + ((3,) if thorough else ()):
         run_scenario(chk, 'C06', 'c06', {'mode': 'names', 'len': L}, f'round trip with a symbolic identifier of {L} characters in every slot', native_roundtrip, 'roundtrip-names')
+    for L in (1,) + ((2,) if thorough else ()):
+        run_scenario(chk, 'C06', 'c06', {'mode': 'names', 'len': L, 'prefix': 1}, f'round trip with an identifier made of an operator prefix (EX, AG, AU, ..) and {L} symbolic character(s) in every slot', native_roundtrip, 'roundtrip-names')
     # parser and preprocessing outputs (stored text / height consistency is part of these scenarios)
     res = run_scenario(chk, 'C06', 'c05_chars', {'L': 3 if thorough else 2}, 'trees produced by the parser: stored text / height (all strings of symbolic characters)', lambda t: [], 'parser-output')
     from . import c07
     run_scenario(chk, 'C06', 'c07', {'len': 1}, 'trees produced by preprocessing: stored text / height', c07.native_rename, 'preprocessing-output')
+    if chk.unexplored:
+        from .. import fallback
+        fallback.roundtrip(chk, 'C06', native_roundtrip)
+        fallback.preprocessing(chk, 'C06', c07.native_rename, signature='preprocessing-output')
